@@ -143,9 +143,23 @@ def r1(idx, rep):
     # CsvDataReader: stores both and passes both to csv.reader
     ci = idx.cls("CsvDataReader")
     init = ci.methods["__init__"]
-    st = {t.attr: unparse(v) for t, v, s in K.stores_in(init.node) if isinstance(t, ast.Attribute)}
-    rep.check(st.get("_delimiter") == "delimiter if delimiter is not None else ','" and st.get("_quotechar") == "quotechar if quotechar is not None else '\"'", "R1",
-              f"{ci.file}::CsvDataReader.__init__ keeps the dialect", f"{st.get('_delimiter')} / {st.get('_quotechar')}", K.where(init, init.node))
+    # interpreted end to end: what the constructor is given is what next() hands to csv.reader (the csv defaults only when nothing is given)
+    badk = None
+    for dl, qc in ((None, None), (";", None), (None, "'"), ("|", "'"), ("\t", '"')):
+        seen = []
+
+        def program(it, dl=dl, qc=qc):
+            it.call_function(init, {"__pos__": ["f.csv"], "delimiter": dl, "quotechar": qc}, "self")
+            return it.call_function(ci.methods["next"], {"__pos__": []}, "self")
+
+        itk = Interp(idx, types={"self": "CsvDataReader"}, unknown_calls="residual",
+                     handlers={"open": lambda i, c, r, a, k: Obj("FILE"), "csv.reader": lambda i, c, r, a, k: (seen.append(dict(k)), [])[1], "reader": lambda i, c, r, a, k: (seen.append(dict(k)), [])[1],
+                               "super": lambda i, c, r, a, k: Obj("SUPER"), "SUPER.__init__": lambda i, c, r, a, k: None})
+        psk = itk.run_program(program, {})
+        wantk = {"delimiter": dl if dl is not None else ",", "quotechar": qc if qc is not None else '"'}
+        if len(psk) != 1 or psk[0].result[0] != "return" or seen != [wantk]:
+            badk = badk or f"CsvDataReader(path, delimiter={dl!r}, quotechar={qc!r}).next() parses with {seen}, documented {wantk}"
+    rep.check(badk is None, "R1", f"{ci.file}::CsvDataReader.__init__ keeps the dialect", badk or "5 dialects", K.where(init, init.node))
     nx = ci.methods["next"]
     # interpreted: the text stream opened on the instance's own path goes to csv.reader with the instance's dialect, and next()
     # yields csv.reader's rows, each once, in order, unchanged (no layer between the bytes and the parser, none after it)
